@@ -420,7 +420,10 @@ def play_asm(name, scripts=None):
 # ---------------------------------------------------------------------------
 # path 3: blocking API in two threads
 # ---------------------------------------------------------------------------
-def play_threads(name, sizes=None):
+def play_threads(name, sizes=None, api="rw"):
+    """api: which of the equivalent calls carry the data steps - "rw"
+    write()/read(), "sock" sendall()/recv(), "into" send()/recv_into(),
+    "file" makefile('wb') / makefile('rb') objects"""
     client, server, f = build(name)
     DET.reseed("C14", name)
     sizes = sizes or {}
@@ -475,18 +478,49 @@ def play_threads(name, sizes=None):
         done_evt[other].wait(30)
         if result[other].get("hs") is not None:
             return
+        files = {}
+        if api == "file" and any(stp[1] == side and stp[0] in "wr"
+                                 for stp in f["steps"]):
+            files = {"r": conn.makefile("rb"), "w": conn.makefile("wb")}
+
+        def close_files():
+            for fo in files.values():
+                fo.close()
+            files.clear()
         for i, stp in enumerate(f["steps"]):
             if stp[1] != side:
                 continue
             k = stp[0]
             try:
                 if k == "w":
-                    conn.write(prg(b"C14d%d" % i, stp[2]))
+                    data = prg(b"C14d%d" % i, stp[2])
+                    if api == "sock":
+                        conn.sendall(data)
+                    elif api == "into":
+                        if conn.send(data) != len(data):
+                            raise HarnessError("send() result")
+                    elif api == "file" and data:
+                        # (a buffered writer has nothing to flush for an
+                        # empty write: that one goes through write())
+                        files["w"].write(data)
+                        files["w"].flush()
+                    else:
+                        conn.write(data)
                     r["steps"][i] = ["w", "done"]
                 elif k == "r":
                     got = bytearray()
                     while len(got) < stp[2]:
-                        d = conn.read(stp[2] - len(got), 1)
+                        want = stp[2] - len(got)
+                        if api == "sock":
+                            d = conn.recv(want)
+                        elif api == "into":
+                            buf = bytearray(want)
+                            n = conn.recv_into(buf)
+                            d = bytes(buf[:n or 0])
+                        elif api == "file":
+                            d = files["r"].read(want)
+                        else:
+                            d = conn.read(want, 1)
                         if not d:
                             break
                         got += d
@@ -498,9 +532,11 @@ def play_threads(name, sizes=None):
                         pass
                     r["steps"][i] = ["ku", "done"]
                 elif k == "close":
+                    close_files()
                     conn.close()
                     r["steps"][i] = ["close", "done"]
                 elif k == "rclose":
+                    close_files()
                     d = conn.read(10, 1)
                     r["steps"][i] = ["rclose", "done", len(d), conn.closed]
             except Exception as e:      # noqa
@@ -593,7 +629,9 @@ def check(case):
         res = play_asm(name, scripts=scripts)
     elif path == "thread":
         sz = case.get("sizes") or {}
-        res = play_threads(name, {k: (v[0], v[1]) for k, v in sz.items()})
+        res = play_threads(name, {k: (v[0], v[1]) for k, v in sz.items()},
+                           api=case.get("api", "rw"))
+        labels.append("api=" + case.get("api", "rw"))
     elif path == "reframe":
         return check_reframe(case, base, labels)
     elif path == "recsize":
@@ -805,6 +843,7 @@ def cases(draw, tier):
     elif path == "thread":
         c["sizes"] = {"c": [draw(sizes_list), draw(sizes_list)],
                       "s": [draw(sizes_list), draw(sizes_list)]}
+        c["api"] = draw(st.sampled_from(["rw", "sock", "into", "file"]))
     else:
         c["mode"] = draw(st.sampled_from(["bytes", "cuts", "cuts",
                                           "coalesce"]))
@@ -847,6 +886,10 @@ def explicit(tier, seed):
                "sizes": {"c": [[1, 3, 100], [2, 50]],
                          "s": [[7, 1], [1, 1000]]}}
         yield {"sc": name, "path": "thread", "sizes": {}}
+        for api in ("sock", "into", "file"):
+            yield {"sc": name, "path": "thread", "api": api,
+                   "sizes": {"c": [[1, 3, 100], [2, 50]],
+                             "s": [[7, 1], [1, 1000]]}}
         yield {"sc": name, "path": "reframe", "mode": "bytes"}
         yield {"sc": name, "path": "reframe", "mode": "coalesce"}
         yield {"sc": name, "path": "reframe", "mode": "cuts",
